@@ -17,13 +17,17 @@ PLANS = {
     "quick": dict(
         mc=[
             ("any-graphs", "SerdeMC_any.cfg", dict(MaxSlots=3, MaxGraphs=2, MaxNodes=2, Irvs="{11}", WithFunc='"no"')),
+            # two-node cycles, forward references and redeclarations need four name occurrences: one graph, nodes only
+            ("any-cycles", "SerdeMC_any.cfg", dict(MaxSlots=4, MaxGraphs=1, MaxNodes=2, MaxIO=1, MaxInits=0, MaxAnn=0, Irvs="{11}", WithFunc='"no"')),
             ("any-functions", "SerdeMC_any.cfg", dict(MaxSlots=2, MaxGraphs=2, MaxNodes=2, Irvs="{9, 11}", WithFunc='"only"')),
         ],
         mut_seeds=260, mut_bytes=12, strace=150, limit_s=10.0,
     ),
     "thorough": dict(
         mc=[
-            ("any-graphs", "SerdeMC_any.cfg", dict(MaxSlots=3, MaxGraphs=3, MaxNodes=3, Irvs="{11}", WithFunc='"no"')),
+            ("any-graphs", "SerdeMC_any.cfg", dict(MaxSlots=4, MaxGraphs=2, MaxNodes=2, Irvs="{11}", WithFunc='"no"')),
+            ("any-nesting", "SerdeMC_any.cfg", dict(MaxSlots=3, MaxGraphs=3, MaxNodes=3, Irvs="{11}", WithFunc='"no"')),
+            ("any-cycles", "SerdeMC_any.cfg", dict(MaxSlots=5, MaxGraphs=1, MaxNodes=3, MaxIO=1, MaxInits=0, MaxAnn=0, Irvs="{11}", WithFunc='"no"')),
             ("any-graphs-ir9", "SerdeMC_any.cfg", dict(MaxSlots=3, MaxGraphs=2, MaxNodes=2, Irvs="{9}", WithFunc='"no"')),
             ("any-functions", "SerdeMC_any.cfg", dict(MaxSlots=3, MaxGraphs=3, MaxNodes=2, Irvs="{9, 10, 11}", WithFunc='"only"')),
         ],
